@@ -35,6 +35,26 @@ fn has_pred(env: &Envelope, kv: KnownValue) -> bool {
     !env.assertions_with_predicate(kv).is_empty()
 }
 
+/// Known defect D15 (inside the ssh-key crate, reached through bc-components): about 1 % of SSH ECDSA
+/// (P-256 / P-384) signatures are mis-encoded (an r or s value with a leading zero byte) - they fail to
+/// verify and fail to parse back ("length invalid"). Signing is deterministic, so re-signing the very same
+/// digest with the same key and checking it with the raw verifier pins a failure on the primitive, not on
+/// the envelope layer.
+fn ssh_ecdsa_primitive_fails(sch: u8, id: u8, digest: &[u8]) -> bool {
+    if sch != keys::SIG_SSH_P256 && sch != keys::SIG_SSH_P384 {
+        return false;
+    }
+    let (sk, pk) = keys::signing(sch, id);
+    match sk.sign_with_options(&digest, keys::sig_options(sch)) {
+        Ok(sig) => {
+            let direct = pk.verify(&sig, &digest);
+            let reparsed = Envelope::try_from_cbor_data(Envelope::new(sig).to_cbor_data()).ok().and_then(|e| e.extract_subject::<Signature>().ok()).map(|s2| pk.verify(&s2, &digest)).unwrap_or(false);
+            !direct || !reparsed
+        }
+        Err(_) => true,
+    }
+}
+
 // ======================================================================================
 // C09 signatures
 
@@ -179,6 +199,19 @@ pub fn run_sign(scn: &Scenario, ctx: &mut Ctx) {
                 match guarded(|| s.env.add_signature_opt(&sk, keys::sig_options(sch), md)) {
                     Ok(e) => {
                         s.env = e;
+                        let subj_digest = *s.env.subject().digest().data();
+                        if ssh_ecdsa_primitive_fails(sch, id, &subj_digest) {
+                            // the signature that was just attached cannot verify: known finding D15
+                            ctx.violate_sig("C09.table", format!("a fresh SSH ECDSA signature by key ({},{}) over this subject does not verify / parse back", sch, id), "ssh-key-ecdsa-signature-encoding".to_string());
+                            s.unknown.insert((sch, id));
+                            s.garbage = true; // an unparsable signature object makes verification report an error for everyone
+                        } else if (sch == keys::SIG_SSH_P256 || sch == keys::SIG_SSH_P384) && meta {
+                            // the outer signature (over the wrapped metadata) may hit the same defect; not attributable here
+                            if !matches!(guarded(|| s.env.has_signature_from(&keys::signing(sch, id).1)), Ok(Ok(true))) {
+                                s.unknown.insert((sch, id));
+                                s.garbage = true;
+                            }
+                        }
                         // a key whose earlier 'signed' assertion was obscured stays "unknown": with a deterministic
                         // scheme the new assertion has the same digest and is (rightly) dropped as a duplicate
                         if !s.unknown.contains(&(sch, id)) {
@@ -492,7 +525,14 @@ pub fn run_sign(scn: &Scenario, ctx: &mut Ctx) {
                                     ctx.violate("C09.sign-verify", "verify() returned something other than the signed envelope".to_string());
                                 }
                             }
-                            Ok(Err(e)) => ctx.violate("C09.sign-verify", format!("verify() with the matching key failed: {}", e)),
+                            Ok(Err(e)) => {
+                                let signed_digest = *orig.wrap_envelope().digest().data();
+                                if ssh_ecdsa_primitive_fails(sch, (st.arg(1) % 3) as u8, &signed_digest) {
+                                    ctx.violate_sig("C09.table", format!("verify() with the matching key failed ({}): the SSH ECDSA primitive mis-encodes the signature over this digest", e), "ssh-key-ecdsa-signature-encoding".to_string());
+                                } else {
+                                    ctx.violate("C09.sign-verify", format!("verify() with the matching key failed: {}", e));
+                                }
+                            }
                             Err(p) => ctx.violate_sig("C16.no-panic", format!("verify panicked: {}", p), p),
                         }
                         ctx.fault("key.wrong");
@@ -720,7 +760,11 @@ pub fn run_recip(scn: &Scenario, ctx: &mut Ctx) {
                 ctx.t(&format!("R.Late {:?}+{}", ids, late_id));
             }
             "R.Seal" => {
-                let ssch = (st.arg(3) % keys::N_SIG_FAST as u64) as u8;
+                // sender schemes: Schnorr, ECDSA, Ed25519 and the SSH variants (SSH keys need signing options)
+                let ssch = (st.arg(3) % if thorough { keys::N_SIG_DET as u64 } else { 6 }) as u8;
+                if keys::is_ssh(ssch) {
+                    ctx.probe("seal-with-ssh-sender");
+                }
                 let sid = ((st.arg(3) >> 4) % 3) as u8;
                 let (ssk, spk) = keys::signing(ssch, sid);
                 let rid = ids[0];
@@ -728,7 +772,8 @@ pub fn run_recip(scn: &Scenario, ctx: &mut Ctx) {
                 let sealed = match guarded(|| orig.seal_opt(&ssk, &rpk, keys::sig_options(ssch))) {
                     Ok(e) => e,
                     Err(p) => {
-                        ctx.violate_sig("C16.no-panic", format!("seal panicked: {}", p), p);
+                        ctx.checked();
+                        ctx.violate_sig("C10.seal", format!("seal_opt with sender scheme {} panicked instead of returning a sealed envelope: {}", ssch, p), p);
                         continue;
                     }
                 };
@@ -743,8 +788,16 @@ pub fn run_recip(scn: &Scenario, ctx: &mut Ctx) {
                             ctx.violate("C10.seal", "unseal returned something other than the original".to_string());
                         }
                     }
-                    Ok(Err(e)) => ctx.violate("C10.seal", format!("unseal with the right keys failed: {}", e)),
-                    Err(p) => ctx.violate_sig("C16.no-panic", format!("unseal panicked: {}", p), p),
+                    Ok(Err(e)) => {
+                        // the sender's signature covers the digest of the wrapped original
+                        let signed_digest = *orig.wrap_envelope().digest().data();
+                        if ssh_ecdsa_primitive_fails(ssch, sid, &signed_digest) {
+                            ctx.violate_sig("C10.seal", format!("unseal with the right keys failed ({}): the SSH ECDSA signature primitive mis-encodes the signature over this digest", e), "ssh-key-ecdsa-signature-encoding".to_string());
+                        } else {
+                            ctx.violate("C10.seal", format!("unseal with the right keys failed: {}", e));
+                        }
+                    }
+                    Err(p) => ctx.violate_sig("C10.seal", format!("unseal panicked: {}", p), p),
                 }
                 let (_, wrong_spk) = keys::signing(ssch, (sid + 1) % 3);
                 let (wrong_rsk, _) = keys::encap(scheme_of((rid + 1) % 6), (rid + 1) % 6);
@@ -906,10 +959,21 @@ pub fn run_sskr(scn: &Scenario, ctx: &mut Ctx) {
         let total: usize = groups.iter().map(|g| g.1).sum();
         let ck = sym_key((st.arg(2) % 4) as u32);
         let wrap = st.arg(2) % 8 >= 4;
-        let base = if wrap { orig.wrap_envelope() } else { orig.clone() };
-        let enc = match guarded(|| base.encrypt_subject(&ck)) {
-            Ok(Ok(e)) => e,
-            _ => continue,
+        let in_place = st.arg(2) % 16 >= 12 && !om.is_obscured();
+        let base = if wrap && !in_place { orig.wrap_envelope() } else { orig.clone() };
+        let enc = if in_place {
+            // the whole envelope encrypted in place by the obscuring API: the encrypted element stands for a
+            // complete envelope (possibly a node); "the original decrypted subject" is then that whole envelope
+            ctx.probe("whole-envelope-encrypted-in-place");
+            match guarded(|| base.elide_removing_target_with_action(&base, &ObscureAction::Encrypt(ck.clone()))) {
+                Ok(e) if e.is_encrypted() => e,
+                _ => continue,
+            }
+        } else {
+            match guarded(|| base.encrypt_subject(&ck)) {
+                Ok(Ok(e)) => e,
+                _ => continue,
+            }
         };
         let split = if op == "K.Extreme" {
             ctx.fault("rng.extreme");
@@ -940,7 +1004,8 @@ pub fn run_sskr(scn: &Scenario, ctx: &mut Ctx) {
         let mut flat: Vec<((usize, usize), Envelope)> = vec![];
         for (gi, g) in shares.iter().enumerate() {
             for (mi, e) in g.iter().enumerate() {
-                if digest_of(&e.subject()) != digest_of(&base.subject()) || !e.is_subject_encrypted() {
+                let want_subject_digest = if in_place { digest_of(&base) } else { digest_of(&base.subject()) };
+                if digest_of(&e.subject()) != want_subject_digest || !e.is_subject_encrypted() {
                     ctx.violate("C11.share-subject", "a share envelope does not carry the digest-preserving encrypted subject of the original".to_string());
                 }
                 // custodian round trip through the network
@@ -950,7 +1015,15 @@ pub fn run_sskr(scn: &Scenario, ctx: &mut Ctx) {
                 }
             }
         }
-        let expected_subject = base.subject();
+        let expected_subject = if in_place { base.clone() } else { base.subject() };
+        // the empty subset (every message lost): an error, never a panic
+        ctx.checked();
+        ctx.fault("net.drop");
+        match guarded(|| Envelope::sskr_join(&[])) {
+            Ok(Ok(_)) => ctx.violate("C11.iff", "joining no share envelopes at all returned an envelope".to_string()),
+            Ok(Err(_)) => ctx.probe("empty-subset-refused"),
+            Err(p) => ctx.violate_sig("C11.no-panic", format!("sskr_join of the empty subset panicked: {}", p), p),
+        }
         let join_check = |ctx: &mut Ctx, subset: &[usize], strict: bool, what: &str, flat: &Vec<((usize, usize), Envelope)>, extra: &[Envelope]| {
             let mut envs: Vec<&Envelope> = subset.iter().map(|i| &flat[*i].1).collect();
             for x in extra {
@@ -1080,7 +1153,7 @@ pub fn generate_sskr(property: &str, r: &mut SimRng, seed: u64) -> Scenario {
     let keep = r.range(2, 6) as usize;
     scn.steps.truncate(keep.max(2));
     let op = *r.pick(&["K.Subsets", "K.Subsets", "K.Subsets", "K.Dup", "K.Foreign", "K.Extreme"]);
-    scn.push(op, &[ds(r), r.next(), r.below(8), r.next()]);
+    scn.push(op, &[ds(r), r.next(), r.below(16), r.next()]);
     scn
 }
 
